@@ -217,6 +217,9 @@ def move_splitsliceread_to_consumer(op, cons_op):
     def compose(idx):
         # The consumer may already read a slice of op.ofm (a slice of a slice): its offset is relative to op.ofm and
         # has to be added to the offset of op.ofm within op.ifm; the shape that is read stays that of the inner slice
+        if cons_op.ifm_shapes[idx] == op.ifm_shapes[0] and cons_op.read_offsets[idx] == op.read_offsets[0]:
+            # The consumer was set up to read this very slice out of the unsliced tensor (the state reads of an LSTM)
+            return
         if cons_op.read_offsets[idx] is not None and op.read_offsets[0] is not None:
             cons_op.read_offsets[idx] = op.read_offsets[0] + cons_op.read_offsets[idx]
         else:
